@@ -90,6 +90,12 @@ def run_login(run, rng, pv, order, threshold, terminal, server_id, auth,
     plugin_ids = {s: rng.choice((1, 7, 128, 300, 2 ** 21, 2 ** 31,
                                  2 ** 32 - 9, 2 ** 31 + 12345)) + i
                   for i, s in enumerate(x for x in order if x[0] == 'P')}
+    if len(plugin_ids) > 1 and rng.random() < 0.35:
+        # nothing obliges a server to number its requests distinctly: every
+        # request is answered, also one that reuses an id (0 included)
+        shared = rng.choice((0, 0, 5, 2 ** 31))
+        plugin_ids = {s: shared for s in plugin_ids}
+        run.count('logins.plugin_requests_sharing_an_id')
     chat_sizes = []
     chat_gate = []
     own_modes = ('explicit', 'implicit', 'implicit')
@@ -543,18 +549,25 @@ def run_login(run, rng, pv, order, threshold, terminal, server_id, auth,
         answers = {}
         for vals, info, when in state['plugin_responses']:
             answers.setdefault(vals['message_id'], []).append(vals)
-        for step, mid in plugin_ids.items():
+        import collections
+        asked = collections.Counter(plugin_ids.values())
+        for mid, times in sorted(asked.items()):
             got = answers.get(mid, [])
-            run.count('plugin_requests')
-            if terminal[0] != 'success' and len(got) == 0:
+            run.count('plugin_requests', times)
+            if terminal[0] != 'success' and len(got) < times:
                 # a disconnect may legitimately pre-empt a queued answer
                 run.count('plugin_answers_preempted_by_disconnect')
-                continue
-            if len(got) != 1:
-                bad('login/plugin-answer-count', 'plugin request answered %d '
-                    'times' % len(got), message_id=mid)
+                if not got:
+                    continue
+            elif len(got) != times:
+                bad('login/plugin-answer-count', 'plugin request made %d '
+                    'time(s) with this id, answered %d times' % (
+                        times, len(got)), message_id=mid)
                 continue
             v = got[0]
+            if any(g != v for g in got[1:]):
+                bad('login/plugin-answer-count', 'answers to requests sharing '
+                    'an id differ', message_id=mid, answers=got)
             if user_handler:
                 run.seen('user_answer_payloads', len(user_data(mid)))
                 if not v['successful'] or v['data'] != user_data(mid):
